@@ -1948,6 +1948,52 @@ pub mod verif_hooks {
         }
     }
 
+    /// Life-cycle view of a public buffer (C05/C01): every field of `hb_buffer_t` that survives between
+    /// public calls, including the ones the primitive-level `State` leaves out.
+    #[derive(Clone, Debug, Default)]
+    pub struct Life {
+        pub st: State,
+        /// 0 invalid, 1 ltr, 2 rtl, 3 ttb, 4 btt
+        pub direction: u8,
+        pub script: Option<u32>,
+        pub language: Option<String>,
+        /// pre / post context, the first `context_len` entries (ordered outward)
+        pub context: [Vec<u32>; 2],
+        pub shaping_failed: bool,
+        pub invisible: Option<u32>,
+        pub not_found_variation_selector: Option<u32>,
+    }
+
+    pub fn life(b: &hb_buffer_t) -> Life {
+        Life {
+            st: dump(b),
+            direction: match b.direction {
+                Direction::Invalid => 0,
+                Direction::LeftToRight => 1,
+                Direction::RightToLeft => 2,
+                Direction::TopToBottom => 3,
+                Direction::BottomToTop => 4,
+            },
+            script: b.script.map(|s| s.tag().0),
+            language: b.language.as_ref().map(|l| String::from(l.as_str())),
+            context: [
+                b.context[0][..b.context_len[0]].iter().map(|c| *c as u32).collect(),
+                b.context[1][..b.context_len[1]].iter().map(|c| *c as u32).collect(),
+            ],
+            shaping_failed: b.shaping_failed,
+            invisible: b.invisible.map(|g| g.0 as u32),
+            not_found_variation_selector: b.not_found_variation_selector,
+        }
+    }
+
+    pub fn life_unicode(b: &UnicodeBuffer) -> Life {
+        life(&b.0)
+    }
+
+    pub fn life_glyph(b: &GlyphBuffer) -> Life {
+        life(&b.0)
+    }
+
     /// Runs one primitive by name. `a` are its integer arguments, `infos` glyph data where needed.
     /// Returns `None` for an unknown primitive, `Some(ret)` otherwise (`ret` = 0/1 for bool results, else 1).
     pub fn op(b: &mut hb_buffer_t, name: &str, a: &[u64], infos: &[RawInfo]) -> Option<u64> {
